@@ -49,6 +49,7 @@ EDITS = ["literal", "literal", "fixed_index", "index_pattern", "index_pattern", 
          "itype", "sid", "md_value", "md_value", "md_array", "md_array", "md_key"]
 MDS = [{}, {"quadrature_degree": 2}, {"quadrature_degree": 3, "scheme": "default"}, {"tol": 0.1234567890123},
        {"opts": {"a": 1, "b": [1, 2, 3]}}, {"quadrature_rule": "custom", "points": {"__array__": [3, 1, None, 0]}},
+       {"__ordered__": [["quadrature_degree", 2], ["max_terms", 4]]},
        {"weights": {"__array__": [12, 2, None, 0]}}, {"weights": {"__array__": [1500, 3, None, 0]}},
        {"weights": {"__array__": [4000, 4, None, 0]}, "quadrature_degree": 2}]
 
@@ -230,6 +231,13 @@ def apply_edit(case, rng):
         old = itg["sid"]
         itg["sid"] = [v for v in (None, 0, 1, 4, [1, 2], [1, 3]) if v != old][int(rng.integers(0, 5))]
         return c, "data"
+    if e == "md_value" and isinstance(itg["md"], dict) and "__ordered__" in itg["md"]:
+        # the corresponding permutation: values exchanged between the keys, keys written in the other order
+        (k1, v1), (k2, v2) = itg["md"]["__ordered__"]
+        itg["md"] = {"__ordered__": [[k2, v1], [k1, v2]]}
+        return c, "data"
+    if e in ("md_array", "md_key") and isinstance(itg["md"], dict) and "__ordered__" in itg["md"]:
+        return None
     if e == "md_value":
         md = itg["md"]
         if not md:
